@@ -155,9 +155,9 @@ func agree(sb *simbox.Simbox, l []hent) (string, string) {
 		w.Suspended = e.susp
 		if sb.Rules[i] != w {
 			if sb.Rules[i].Suspended != w.Suspended {
-				return "suspension-mark", fmt.Sprintf("rule %d is %+v, model %+v", i, sb.Rules[i], w)
+				return "suspension-mark", fmt.Sprintf("rule %d is %s, model %s", i, fr(sb.Rules[i]), fr(w))
 			}
-			return "rule-fields", fmt.Sprintf("rule %d is %+v, model %+v", i, sb.Rules[i], w)
+			return "rule-fields", fmt.Sprintf("rule %d is %s, model %s", i, fr(sb.Rules[i]), fr(w))
 		}
 	}
 	if p := sb.Print(); p != modelPrint(l) {
